@@ -64,7 +64,7 @@ Deadline == shared.start + cfg.T
 Init ==
     /\ cfg \in Configs
     /\ now = 0 /\ A = <<>> /\ rr = 0 /\ open = {}
-    /\ callers = [c \in 1..NCallers |-> [st |-> "new", t |-> 0, lk |-> 0, ls |-> 0, d |-> NoDone, viol |-> {}]]
+    /\ callers = [c \in 1..NCallers |-> [st |-> "new", q |-> 1, rd |-> 1, cd |-> 0, t |-> 0, lk |-> 0, ls |-> 0, d |-> NoDone, viol |-> {}]]
     /\ shared = [active |-> FALSE, origin |-> 0, start |-> 0]
     /\ m = Idle
 
@@ -94,6 +94,7 @@ CallCreate(c, gap, order) ==
 \* a caller that finds the identical query in flight joins it (no request of its own)
 CallJoin(c) ==
     /\ NextCaller(c) /\ shared.active /\ m.phase # "done"
+    /\ SameQuery(callers[c], callers[shared.origin])      \* only identical queries share (here: all callers' are)
     /\ callers' = [callers EXCEPT ![c] = [@ EXCEPT !.st = "waiting", !.t = now, !.lk = shared.origin,
                                                    !.ls = shared.start]]
     /\ UNCHANGED <<cfg, now, A, shared, m, rr, open>>
